@@ -606,6 +606,9 @@ mut("C16", "deferred-failure-count-also-runs-on-h1-success", PS,
 mut("C14", "undo-D22", CW,
     "		if bytes.Equal(certPEM, again) {\n			return certPEM, keyPEM, nil\n		}\n", "		if bytes.Equal(certPEM, again) || len(again) > 0 {\n			return certPEM, keyPEM, nil\n		}\n")
 
+mut("C17", "undo-D23", "pkg/proxyserver/proxyserver.go",
+    "	if server.ctx.Err() != nil {\n		server.vlogf(\"not serving", "	if false && server.ctx.Err() != nil {\n		server.vlogf(\"not serving")
+
 # ---- C08 (undo the three repairs)
 mut("C08", "undo-D12", "pkg/reverseproxy/handler.go",
     "	r.Out.URL.RawQuery = r.In.URL.RawQuery\n", "")
